@@ -3,7 +3,8 @@ import json, os, copy
 import vf
 
 PROP = "C04"
-THEOREMS = ["apply_err_is_err", "apply_ok_means_all_applied", "diff_apply_exact_refuted"]
+THEOREMS = ["apply_err_is_err", "apply_ok_means_all_applied", "diff_apply_exact_refuted", "diff_apply_exact_partial",
+            "diff_canonical", "patch_constructor_identity", "Struct_preserved"]
 PRE = ("From Coq Require Import List NArith Bool.\n"
        "From Echo Require Import Base.FinMap Base.Order Model.Patch.\n"
        "Import ListNotations.\nOpen Scope N_scope.\n"
